@@ -83,14 +83,23 @@ def plan(tier, seed):
 
 
 # -----------------------------------------------------------------------------
+READ_FAMILY = ra.P_READABLE | ra.P_READ_ENC | ra.P_READ_AUTHN | ra.P_READ_AUTHZ
+WRITE_FAMILY = ra.P_WRITEABLE | ra.P_WRITE_ENC | ra.P_WRITE_AUTHN | ra.P_WRITE_AUTHZ
+
+
 def reason_of(perm, enc, auth, write=False):
-    """Discriminating class of a refusal: only the access bit is missing, or a security
-    requirement (encryption / authentication / authorization) is unmet."""
+    """Discriminating class of a refusal:
+      security-requirement              an encryption / authentication / authorization requirement is unmet
+      no-read-permission (no-write-..)  none of the four read (write) permission bits is set
+      access-bit-clear-requirement-met  READABLE (WRITEABLE) is clear, but some requirement bit is set and
+                                        every requirement that is set is met by the link"""
     if write:
         sec = (perm & ra.P_WRITE_ENC and not enc) or (perm & ra.P_WRITE_AUTHN and not auth) or perm & ra.P_WRITE_AUTHZ
-        return 'security-requirement' if sec else 'not-writeable'
+        return 'security-requirement' if sec else \
+            'no-write-permission' if not perm & WRITE_FAMILY else 'access-bit-clear-requirement-met'
     sec = (perm & ra.P_READ_ENC and not enc) or (perm & ra.P_READ_AUTHN and not auth) or perm & ra.P_READ_AUTHZ
-    return 'security-requirement' if sec else 'not-readable'
+    return 'security-requirement' if sec else \
+        'no-read-permission' if not perm & READ_FAMILY else 'access-bit-clear-requirement-met'
 
 
 def role_class(m):
@@ -178,16 +187,18 @@ class Session:
         return ra.allowed_write(m.perm, self.enc, self.auth)
 
     # -- plumbing -----------------------------------------------------------------
-    async def ask(self, pdu, what):
+    async def ask(self, pdu, what, touches=()):
+        """touches: the attributes this request addresses. Their disclosure in the reply is judged
+        (and keyed) by the operation's own clause; the scan reports every *other* leak."""
         if self.kind == 'eatt':
             self.r.ev('eatt_accesses')
         self.trail += 1
         replies = await self.hs.exchange(self.bearer, pdu, what, f'{self.kind} {what} {pdu[:24].hex()}')
         for b in self.hs.bearers:
-            self.scan(b)
+            self.scan(b, {m.index for m in touches})
         return replies
 
-    def scan(self, bearer):
+    def scan(self, bearer, judged_elsewhere=frozenset()):
         """disclosure clause over every server->client PDU not yet scanned"""
         n = getattr(bearer, '_c11_scanned', 0)
         for pdu in bearer.rx[n:]:
@@ -195,9 +206,10 @@ class Session:
             self.r.ev('oracle_evals')
             for key in self.table.find(pdu):
                 m = self.refused_read.get(key)
-                if m is not None:
-                    self.r.bad(f'perm/disclosed/{ra.opname(pdu[0])}/{reason_of(m.perm, self.enc, self.auth)}/'
-                               f'{role_class(m)}',
+                if m is not None and key in judged_elsewhere:
+                    self.r.ev('disclosures_in_reply_to_the_request_that_addressed_the_attribute')
+                elif m is not None:
+                    self.r.bad(f'perm/disclosed/{ra.opname(pdu[0])}/{reason_of(m.perm, self.enc, self.auth)}',
                                f'value of {m} (not readable with enc={self.enc} auth={self.auth}) appears in '
                                f'{ra.opname(pdu[0])} on {bearer.kind}: {pdu[:40].hex()}; last request: {self.hs.ctx}')
         bearer._c11_scanned = len(bearer.rx)
@@ -207,7 +219,7 @@ class Session:
         r = self.r
         r.ev('refused_accesses_judged')
         r.ev('oracle_evals')
-        key_tail = f'{reason}/{role_class(m)}'
+        key_tail = f'{reason}'
         if not replies:
             r.bad(f'perm/{opn}/unanswered/{key_tail}',
                   f'{opn} touching {m} (enc={self.enc} auth={self.auth}) got no reply at all; {self.hs.ctx}')
@@ -238,7 +250,7 @@ class Session:
         r = self.r
         for opn, op, pdu in (('read', ra.READ_REQ, ra.read(m.handle)),
                              ('read-blob', ra.READ_BLOB_REQ, ra.read_blob(m.handle, self.rng.choice([0, 1])))):
-            replies = await self.ask(pdu, opn)
+            replies = await self.ask(pdu, opn, [m])
             if self.readable(m):
                 if replies and replies[0][0] in (ra.READ_RSP, ra.READ_BLOB_RSP):
                     r.ev('granted_accesses_seen')
@@ -246,9 +258,18 @@ class Session:
                     r.ev('allowed_but_error')    # Attribute Not Long etc.: availability is not this property
                 continue
             reason = reason_of(m.perm, self.enc, self.auth)
+            if replies and len(replies) == 1 and len(replies[0]) == 5 and replies[0][0] == ra.ERROR_RSP and \
+                    replies[0][1] == op and replies[0][4] in (ra.E_ATTRIBUTE_NOT_LONG, ra.E_INVALID_OFFSET):
+                # these errors depend on the value's length: the server went past the permission check
+                r.ev('refused_accesses_judged')
+                r.ev('oracle_evals')
+                r.bad(f'perm/{opn}/granted/{reason}',
+                      f'{opn} of {m} with enc={self.enc} auth={self.auth} answered by error {replies[0][4]:#x}, which is '
+                      f'decided from the value (its length) instead of the permission')
+                continue
             res = self.judge_refusal(op, opn, m, replies, ra.read_refusal_codes(m.perm, self.enc, self.auth), reason)
             if res is None:
-                r.bad(f'perm/{opn}/granted/{reason}/{role_class(m)}',
+                r.bad(f'perm/{opn}/granted/{reason}',
                       f'{opn} of {m} with enc={self.enc} auth={self.auth} answered by {ra.opname(replies[0][0])} '
                       f'{replies[0][:24].hex()} instead of an error')
 
@@ -279,19 +300,21 @@ class Session:
                         self.table.add(self.write_serial, True, key=m.index)
                 continue
             reason = reason_of(m.perm, self.enc, self.auth, write=True)
+            changed = False
             if before is not None:
                 r.ev('value_unchanged_checks')
                 r.ev('oracle_evals')
                 if after != before:
-                    r.bad(f'perm/{opn}/changed/{reason}/{role_class(m)}',
+                    changed = True
+                    r.bad(f'perm/{opn}/changed/{reason}',
                           f'{opn} to {m} (not writable with enc={self.enc} auth={self.auth}) changed the server-side '
                           f'value from {str(before)[:40]} to {str(after)[:40]}')
                     if m.kind == 'static':
                         m.obj.value = before    # restore so that later clauses see the original database
             if op == ra.WRITE_REQ:
                 res = self.judge_refusal(op, opn, m, replies, ra.write_refusal_codes(m.perm, self.enc, self.auth), reason)
-                if res is None:
-                    r.bad(f'perm/{opn}/granted/{reason}/{role_class(m)}',
+                if res is None and not changed:
+                    r.bad(f'perm/{opn}/granted/{reason}',
                           f'write to {m} with enc={self.enc} auth={self.auth} answered by {ra.opname(replies[0][0])}')
             else:
                 r.ev('refused_accesses_judged')
@@ -306,13 +329,25 @@ class Session:
             opn, op, pdu = 'read-by-group-type', ra.READ_BY_GROUP_TYPE_REQ, ra.read_by_group_type(start, end, type_le)
         else:
             opn, op, pdu = 'read-by-type', ra.READ_BY_TYPE_REQ, ra.read_by_type(start, end, type_le)
-        replies = await self.ask(pdu, f'{opn} pattern {pattern}')
+        replies = await self.ask(pdu, f'{opn} pattern {pattern}', members)
         first_refused = next((m for m in members if not self.readable(m)), None)
         if first_refused is None:
             return
         reason = reason_of(first_refused.perm, self.enc, self.auth)
         pos = 'first' if first_refused is members[0] else 'later'
         codes = ra.read_refusal_codes(first_refused.perm, self.enc, self.auth)
+        if replies and len(replies) == 1 and len(replies[0]) == 5 and replies[0][0] == ra.ERROR_RSP and replies[0][1] == op:
+            _req, eh, ec = ra.parse_error(replies[0])
+            later = [m for m in members[members.index(first_refused) + 1:] if not self.readable(m)]
+            if any(eh == m.handle and ec in ra.read_refusal_codes(m.perm, self.enc, self.auth) for m in later) and \
+                    not (eh == first_refused.handle):
+                # the error names a protected attribute *behind* the first one: the first was passed over
+                r.ev('refused_accesses_judged')
+                r.ev('oracle_evals')
+                r.bad(f'perm/{opn}/granted/{reason}',
+                      f'{opn} {start:#x}..{end:#x} over pattern {pattern}: error names handle {eh:#x} (code {ec:#x}) although '
+                      f'{first_refused} comes first and is not readable (enc={self.enc} auth={self.auth})')
+                return
         res = self.judge_refusal(op, opn + '/' + pos, first_refused, replies, codes, reason)
         if res is None:
             # a response: acceptable only when the protected attribute is not the first match and
@@ -321,11 +356,11 @@ class Session:
             try:
                 listed = [e[0] for e in (ra.parse_read_by_group_type_rsp(pdu) if group_type else ra.parse_read_by_type_rsp(pdu))]
             except ra.Malformed as e:
-                r.bad(f'perm/{opn}/{pos}/wrong-reply/{reason}/{role_class(first_refused)}', f'{e}: {pdu[:30].hex()}')
+                r.bad(f'perm/{opn}/{pos}/wrong-reply/{reason}', f'{e}: {pdu[:30].hex()}')
                 return
             bad = [hd for hd in listed if hd in self.hs.by_handle and not self.readable(self.hs.by_handle[hd])]
             if pos == 'first' or bad:
-                r.bad(f'perm/{opn}/{pos}/granted/{reason}/{role_class(first_refused)}',
+                r.bad(f'perm/{opn}/granted/{reason}',
                       f'{opn} {start:#x}..{end:#x} over pattern {pattern} lists handles {[hex(x) for x in listed]}; '
                       f'protected: {[hex(m.handle) for m in members if not self.readable(m)]} '
                       f'(enc={self.enc} auth={self.auth})')
@@ -338,7 +373,7 @@ class Session:
                              ('read-multiple-variable', ra.READ_MULTIPLE_VARIABLE_REQ, ra.read_multiple_variable)):
             r.ev('mixed_order_requests')
             handles = [m.handle for m in members]
-            replies = await self.ask(enc(handles), f'{opn} pattern {pattern}')
+            replies = await self.ask(enc(handles), f'{opn} pattern {pattern}', members)
             refused = [m for m in members if not self.readable(m)]
             if not refused:
                 continue
@@ -370,14 +405,14 @@ class Session:
             if ok:
                 r.ev('refusals_with_matching_error')
             elif not replies:
-                r.bad(f'perm/{opn}/{pos}/unanswered/{reason}/{role_class(first)}',
+                r.bad(f'perm/{opn}/{pos}/unanswered/{reason}',
                       f'{opn} {[hex(x) for x in handles]} (pattern {pattern}, enc={self.enc} auth={self.auth}) got no reply')
             elif replies[0][0] == ra.ERROR_RSP:
-                r.bad(f'perm/{opn}/{pos}/wrong-reply/{reason}/{role_class(first)}',
+                r.bad(f'perm/{opn}/{pos}/wrong-reply/{reason}',
                       f'{opn} {[hex(x) for x in handles]} answered by {replies[0].hex()}; protected: '
                       f'{[(hex(m.handle), sorted(ra.read_refusal_codes(m.perm, self.enc, self.auth))) for m in refused]}')
             else:
-                r.bad(f'perm/{opn}/{pos}/granted/{reason}/{role_class(first)}',
+                r.bad(f'perm/{opn}/granted/{reason}',
                       f'{opn} {[hex(x) for x in handles]} (pattern {pattern}) answered by {ra.opname(replies[0][0])} '
                       f'{replies[0][:30].hex()} although {[hex(m.handle) for m in refused]} are not readable')
 
@@ -397,7 +432,7 @@ class Session:
             tclass = 'target-protected' if not self.readable(target) else 'target-open'
             r.ev('refused_accesses_judged')
             r.ev('oracle_evals')
-            key = f'{reason}/{role_class(refused[0])}'
+            key = f'{reason}'
             if not replies:
                 r.bad(f'perm/find-by-type-value/{tclass}/unanswered/{key}',
                       f'find-by-type-value {start:#x}..{end:#x} type {t16:#x} (pattern {pattern}) got no reply')
